@@ -256,6 +256,19 @@ impl St {
                     return Err(diff(&format!("namespaces_mut(E{})", i + 1), &mo, &want_n));
                 }
             }
+            // the accessor twins on Xot
+            for (name, id) in self.akeys.iter() {
+                let want = self.attrs[i].iter().find(|en| en.key == *name).map(|en| en.val.clone());
+                if self.xot.get_attribute(e, *id).map(|s| s.to_string()) != want {
+                    return Err(format!("get_attribute(E{}, {}) disagrees with the reference map", i + 1, name));
+                }
+            }
+            for (name, id) in self.nkeys.iter() {
+                let want = self.nss[i].iter().find(|en| en.key == *name).map(|en| en.val.clone());
+                if self.xot.get_namespace(e, *id).map(|u| self.xot.namespace_str(u).to_string()) != want {
+                    return Err(format!("get_namespace(E{}, {:?}) disagrees with the reference map", i + 1, name));
+                }
+            }
             // serialisation order: output events and the start tag as written
             let x = &self.xot;
             let top = self.tops[i];
